@@ -155,9 +155,10 @@ class Ctx:
         for f in known:
             out.append(f"KNOWN-FINDING: property={self.pid} rule={f.rule} key={f.key} {f.what}")
         replay_paths = []
+        scratch = os.environ.get("VERIF_SCRATCH_DIR")
         if new:
-            rdir = VERIF / "replay"
-            rdir.mkdir(exist_ok=True)
+            rdir = Path(scratch) / "replay" if scratch else VERIF / "replay"
+            rdir.mkdir(parents=True, exist_ok=True)
             for i, f in enumerate(new):
                 p = rdir / f"{self.pid}-{i}.json"
                 p.write_text(json.dumps({"property": self.pid, **f.to_json()}, indent=1))
@@ -216,8 +217,8 @@ class Ctx:
             "wall_s": round(wall, 3),
             "violations": len(new),
         }
-        edir = VERIF / "evidence"
-        edir.mkdir(exist_ok=True)
+        edir = Path(scratch) / "evidence" if scratch else VERIF / "evidence"
+        edir.mkdir(parents=True, exist_ok=True)
         (edir / f"{self.pid}.json").write_text(json.dumps(ev, indent=1, default=str))
 
         if not self.quiet:
